@@ -191,6 +191,16 @@ def stepC20 (st : St) (toks : List String) : St × String :=
       | some x0, some xl => (st, showRows (o.path.iterateRows h n [x0, xl]))
       | _, _ => (st, err "value")
     | _, _ => (st, err "format")
+  -- prelax k h tol r c : relax of a two-image path (every image kept by the re-spacing):
+  -- rows after the relaxation phase and the climbing phase (no climbing image), the displacement measures
+  | ["prelax", k, h, tol, r, c] => withObj st k fun o =>
+    match parseRat? h, parseRat? tol, r.toNat?, c.toNat? with
+    | some h, some tol, some r, some c =>
+      if o.path.coord.length ≠ 2 ∨ h = 0 then (st, err "value") else
+      let a := o.path.relaxPhase Vec.dot ratSqrt h tol r o.path.coord
+      let b := o.path.relaxPhase Vec.dot ratSqrt h tol c a.1
+      (st, sect [showRows b.1, showRats a.2, showRats b.2])
+    | _, _, _, _ => (st, err "format")
   | ["pcopy", k] => withObj st k fun o => (st.push o, s!"ok {st.size}")
   | ["preset"] => (#[], "ok")
   | _ => (st, handleStateless toks)
